@@ -5,8 +5,33 @@ has_class(x, 'C')   x is an object whose DYNAMIC class is C or a subclass of C. 
                     carries no fact about the object itself, so two objects of different classes that share a field
                     name (Catalog.name / NamedExpression.name) could alias.  This predicate states the run-time class
                     (the uninterpreted `cls_of` the engine fixes at every construction).
+
+set_at(s, i)        the element at position i of the arbitrary but fixed enumeration of the set s (LIBSPEC of set
+                    iteration: positions 0 .. len(s)-1 deliver every member exactly once)
+iter_pos(it)        ghost: number of elements a set iterator has delivered so far
+iter_over(it, s)    ghost: `it` is an iterator over the set object s
 """
 from pyvc.specs_runtime import spec
+
+
+@spec('set_at')
+def set_at(ex, st, s, i):
+    from pyvc.libext import c16c_ext
+    from pyvc.vals import ANY, V, as_int
+    ety = s.ty.args[0] if s.ty.args else ANY
+    return V(c16c_ext.set_enum_at(st, s, as_int(i)), ety)
+
+
+@spec('iter_pos')
+def iter_pos(ex, st, it):
+    from pyvc.vals import INT, V, as_ref, v_int, as_int
+    return v_int(as_int(V(st.read(as_ref(it), '$it_pos'), INT)))
+
+
+@spec('iter_over')
+def iter_over(ex, st, it, s):
+    from pyvc.vals import as_ref, v_bool
+    return v_bool(st.read(as_ref(it), '$it_set') == s.t)
 
 
 @spec('has_class')
